@@ -555,7 +555,7 @@ class ListEntryShown(Harness):
     def __init__(self, names, lo=None, hi=None):
         self.names = names
         self.lo, self.hi = lo, hi
-        self.name = 'to_list.entries_shown_in_their_units' + ('' if lo is None else '.range')
+        self.name = 'to_list.entries_shown_in_their_units' + ('' if lo is None else '.range') + ('' if list(names) == ['s', 'ms'] else '.' + '_'.join(names))
         self.describe = ('`v s -> %s` with an arbitrary rational v: for every entry, the value handed to the digit printer times the value of the unit '
                          'name printed next to it (looked up by the real Context::lookup) equals the part times its unit - real to_parts / prettify with '
                          'the database prefix table, real canonicalize') % ';'.join(names)
@@ -677,8 +677,9 @@ _c09_prev3 = harnesses
 def harnesses(tier):   # noqa: F811
     if tier == 'quick':
         return _c09_prev3(tier) + [ListEntryShown(['s', 'ms'], Fraction(1, 10 ** 7), Fraction(10 ** 4))]
-    hs = _c09_prev3(tier) + [ListEntryShown(['s', 'ms']), ListEntryShown(['ks', 's', 'ms']), ListEntryShown(['s', 'us'])]
-    return hs
+    # a wider range than the quick tier; without a range limit the 17 x 17 prefix choices of two entries (x 17 again for three)
+    # make thousands of paths of 1.4 s each - the thorough run of that took 42 minutes and is not registered
+    return _c09_prev3(tier) + [ListEntryShown(['s', 'ms'], Fraction(1, 10 ** 8), Fraction(10 ** 5))]
 
 
 # --------------------------------------------------------------------------------------------------------------
